@@ -17,7 +17,7 @@ IMPLICIT = {
     "unmonitor": lambda s: bool(A.find_calls(s, "current_run.unmonitor")),
     "subscribe": lambda s: bool(A.find_calls(s, "self.subscribe")),
     "unsubscribe": lambda s: bool(A.find_calls(s, "self.unsubscribe")),
-    "close_run": lambda s: bool(A.find_calls(s, "current_run.close_run")),
+    "close_run": lambda s: bool(__import__("bsa.bidioms", fromlist=["x"]).bundler_method_calls(s, "close_run")),
 }
 NON_REPLAYABLE = ["pause", "open_run", "install_suspender", "remove_suspender", "_start_suspender"]
 
